@@ -124,10 +124,7 @@ struct RemoteConn {
 fn spawn_remote(router: axum::Router, pipe: SimPipe, flag: Arc<Flag>, rt: tokio::runtime::Handle) -> RemoteConn {
     let (cmd_tx, cmd_rx) = std::sync::mpsc::channel::<Cmd>();
     let (evt_tx, evt_rx) = std::sync::mpsc::channel::<Evt>();
-    let handle = std::thread::Builder::new()
-        .name("sim-conn".into())
-        .stack_size(128 << 20)
-        .spawn(move || {
+    let handle = crate::seams::spawn_retry("sim-conn", 128 << 20, move || {
             let pool = rayon::ThreadPoolBuilder::new().num_threads(1).stack_size(64 << 20).build().expect("pool");
             let cmd_rx = Arc::new(Mutex::new(cmd_rx));
             let svc = hyper_util::service::TowerToHyperService::new(router);
@@ -182,8 +179,7 @@ fn spawn_remote(router: axum::Router, pipe: SimPipe, flag: Arc<Flag>, rt: tokio:
                     Ok(Cmd::Quit) | Err(_) => break,
                 }
             }
-        })
-        .expect("spawn conn thread");
+        });
     RemoteConn { cmd: cmd_tx, evt: evt_rx, handle: Some(handle) }
 }
 
